@@ -51,6 +51,7 @@ def policy(members):
         "s1": {"organization": pd("pd-s1", [d_org()])},
         "s2": {"organization": pd("pd-s2", [d_org(), d_emp()])},
         "other": {"organization": pd("pd-other", [d_org()])},
+        "emp": {"organization": pd("pd-emp", [d_emp()])},     # a scope of its own that asks for another credential
         "dual": {"organization": pd("pd-dual-org", [d_org()]), "user": pd("pd-dual-user", [d_emp()])},
     }
     for m in members:
@@ -109,11 +110,12 @@ def concretise(beh, rnd, family, idx, force=None):
             st["vcfmt"] = rnd.choice(["ldp", "jwt"])
             if force:
                 st["fmt"], st["vcfmt"] = force
-            st["var"] = {f: rnd.randrange(6) for f in st.get("d", [])}
+            st["var"] = {f: rnd.randrange(24) for f in st.get("d", [])}
             st["var"]["issuer"] = rnd.randrange(2)
             st["pd2"] = bool(pd2 and st.get("def", "plain") == "plain" and "partial" not in st.get("d", [])) if family not in ("code", "code2") else pd2
         if st["a"] == "Authorize":
             st["pd2"] = pd2     # the scope is fixed by the authorization request
+            st["var"] = {f: rnd.randrange(24) for f in st.get("d", [])}
         if st["a"] == "CodeToken":
             st["var"] = {f: rnd.randrange(6) for f in st.get("d", [])}
         steps.append(st)
@@ -209,8 +211,8 @@ def action_coverage(raw):
             hit = [a for a in ACTIONS if re.search(r"\b%s\(" % a, line)]
             if hit:
                 name = hit[0]
-        if name == "S2SDo":
-            name = "S2SToken"
+        name = {"S2SDo": "S2SToken", "S2SReplayDo": "S2SReplay", "AuthorizeDo": "Authorize", "AuthzDo": "AuthzResponse",
+                "CodeDo": "CodeToken", "IntrospectDo": "Introspect"}.get(name, name)
         if name in ACTIONS:
             out[name] = out.get(name, 0) + total
     return out
